@@ -42,6 +42,17 @@ fn bases() -> Vec<(&'static str, SPDC)> {
   if let Ok(s) = SPDC::from_json(bbo.to_string()) {
     out.push(("bbo_noncollinear", s));
   }
+  let ppln = json!({
+    "crystal": {"kind": "LiNbO3_1", "pm_type": "Type0_e_ee", "phi_deg": 0, "theta_deg": 90, "length_um": 5000, "temperature_c": 80},
+    "pump": {"wavelength_nm": 532, "waist_um": 60, "bandwidth_nm": 0.1, "average_power_mw": 50},
+    "signal": {"wavelength_nm": 810, "phi_deg": 0, "theta_external_deg": 0.5, "waist_um": 45, "waist_position_um": -1200},
+    "idler": "auto",
+    "periodic_poling": {"poling_period_um": 7.4, "apodization": {"kind": "Bartlett", "parameter": 1.25}},
+    "deff_pm_per_volt": 14.0
+  });
+  if let Ok(s) = SPDC::from_json(ppln.to_string()) {
+    out.push(("ppln_type0_bartlett", s));
+  }
   out
 }
 
